@@ -5,6 +5,7 @@ import (
 	"time"
 
 	"verif/internal/fw"
+	"verif/internal/wr"
 	"encoding/json"
 	"fmt"
 	"os"
@@ -136,4 +137,15 @@ func TestFind(t *testing.T) {
 			os.WriteFile(fmt.Sprintf("/tmp/c02find%d.json", n), raw, 0o644)
 		}
 	}
+}
+
+func TestPanicStack(t *testing.T) {
+	f := os.Getenv("C02_CASE")
+	if f == "" || os.Getenv("C02_PANIC") == "" {
+		t.Skip()
+	}
+	b, _ := os.ReadFile(f)
+	var in Input
+	json.Unmarshal(b, &in)
+	wr.Render(wr.Opts{HTML: in.HTML, Engine: in.Engine})
 }
